@@ -108,13 +108,9 @@ func vio(clause, key, format string, a ...interface{}) sim.Violation {
 func (s *ProtoScenario) Check(k *sim.Kernel) []sim.Violation {
 	var out []sim.Violation
 	conns := clientConns(k)
-	cidOwner := map[int]int{}
-	for ci, c := range s.Clients {
-		for _, f := range c.Frames {
-			cidOwner[f.Cid] = ci
-		}
-	}
-	// handler events per client
+	// handler events are attributed to connections through task identity:
+	// the handler task (and its ctxio helper children) are the users of the
+	// connection's server end
 	type hev struct {
 		seq  uint64
 		kind string
@@ -125,13 +121,12 @@ func (s *ProtoScenario) Check(k *sim.Kernel) []sim.Violation {
 		if !strings.HasPrefix(e.Kind, "h.") {
 			continue
 		}
-		var c struct {
-			Cid int `json:"cid"`
-		}
-		json.Unmarshal([]byte(e.Data), &c)
-		owner, ok := cidOwner[c.Cid]
-		if !ok {
-			owner = -1
+		owner := -1
+		for ci := range s.Clients {
+			if c := conns[ci]; c != nil && c.Server.UsedBy(e.Task) {
+				owner = ci
+				break
+			}
 		}
 		perClient[owner] = append(perClient[owner], hev{e.Seq, e.Kind, e.Data})
 	}
@@ -145,7 +140,7 @@ func (s *ProtoScenario) Check(k *sim.Kernel) []sim.Violation {
 			}
 			continue
 		}
-		faulted := s.Faulted || cs.End != "close" || cs.NoRead
+		faulted := cs.End != "close" || cs.NoRead
 		// --- reply stream
 		obs, rest, err := parseReplies(conn.Server.Tap)
 		if err != nil {
@@ -213,15 +208,11 @@ func (s *ProtoScenario) Check(k *sim.Kernel) []sim.Violation {
 			}
 		}
 		// flags and parameters as seen by the handler
-		frameByCid := map[int]FrameSpec{}
-		for _, f := range cs.Frames {
-			frameByCid[f.Cid] = f
-		}
-		for _, h := range enters {
-			f, ok := frameByCid[h.Cid]
-			if !ok {
-				continue
+		for i, h := range enters {
+			if i >= len(cm.Dispatch) || cm.AmbiguousFrom >= 0 {
+				break
 			}
+			f := cs.Frames[cm.Dispatch[i].Frame]
 			pc := parseCall(f.Text)
 			if !pc.ok || pc.ambiguous {
 				continue
@@ -267,16 +258,15 @@ func (s *ProtoScenario) Check(k *sim.Kernel) []sim.Violation {
 			}
 		}
 	}
-	// handler events that belong to no client's frames
+	// handler events that belong to no scripted client (the probe connection has none)
 	for _, e := range perClient[-1] {
 		if e.kind == "h.enter" {
 			var h hEnter
 			json.Unmarshal([]byte(e.data), &h)
-			if h.Cid != -1 {
-				out = append(out, vio("dispatch", "phantom-dispatch", "handler invoked with cid %d that no client sent", h.Cid))
-			}
+			out = append(out, vio("dispatch", "phantom-dispatch", "handler invoked (cid %d, %s|%s) on no known connection", h.Cid, h.Iface, h.Method))
 		}
 	}
+	out = append(out, s.checkRelease(k, conns)...)
 	out = append(out, s.checkServe(k)...)
 	return out
 }
@@ -309,6 +299,29 @@ func contains(l []int, v int) bool {
 		}
 	}
 	return false
+}
+
+// checkRelease: once a connection's peer is gone its resources are released —
+// the server end is closed and no handler / helper task of it remains.
+func (s *ProtoScenario) checkRelease(k *sim.Kernel, conns map[int]*sim.Conn) []sim.Violation {
+	var out []sim.Violation
+	if k.StopReason() != "quiescent" {
+		return nil
+	}
+	for _, c := range k.Conns {
+		if c.AcceptSeq == 0 || !c.Client.Closed {
+			continue
+		}
+		if !c.Server.Closed {
+			out = append(out, vio("resource-release", "server-end-open", "connection c%d: the client end is gone (closed at seq %d, aborted=%v) but the server end is still open at quiescence", c.ID, c.Client.CloseSeq, c.Client.Aborted))
+		}
+		for _, ti := range k.LiveTasks() {
+			if !ti.Root && c.Server.UsedBy(ti.ID) {
+				out = append(out, vio("resource-release", "task-left-behind "+ti.Label, "connection c%d is gone but task %s (%s) is still alive at quiescence, blocked: %q after %s", c.ID, ti.ID, ti.Label, ti.Blocked, ti.Site))
+			}
+		}
+	}
+	return out
 }
 
 // checkServe judges the serving call's return when the scenario shuts the service down.
